@@ -425,7 +425,7 @@ char *nl_cstr_substring(const char *s, int64_t start, int64_t len) {
     int64_t slen = (int64_t)strlen(s);
     if (start < 0) start = 0;
     if (start >= slen || len <= 0) return strdup("");
-    if (start + len > slen) len = slen - start;
+    if (len > slen - start) len = slen - start;   /* start + len may overflow */
     char *r = malloc((size_t)len + 1);
     if (!r) return strdup("");
     memcpy(r, s + start, (size_t)len);
